@@ -556,23 +556,53 @@ def _r6(ctx):
                   "rename branch `if change['name'] != reg` not found", f.qname, "rename branch")
         return
     r = ren[0]
-    src_state = "%s.get(%s, {'value': 0})" % (st, srcname)
+    src_get = "%s.get(%s, {'value': 0})" % (st, srcname)
+    src_idx = "%s[%s]" % (st, srcname)
+    member = C.CT("%s in %s" % (srcname, st))
     name_set = any(isinstance(x, ast.Assign) and U(x.targets[0]) == "%s[%s]['name']" % (st, reg) and S(x.value) == srcname for x in ast.walk(r))
-    val_copy = any(isinstance(x, ast.Assign) and U(x.targets[0]) == "%s[%s]['value']" % (st, reg) and S(x.value) == src_state + "['value']"
-                   for x in ast.walk(r))
+    # cases of a rename: (A) the source has a tracked value -> take it; (B) the source is unknown (None) -> unknown;
+    # (C) the source has no entry yet -> start from 0. `state.get(src, {'value': 0})` covers A and C in one expression,
+    # `state[src]` under `src in state` covers A, and a literal 0 under `src not in state` covers C
+    covered, odd = set(), []
+    for x in ast.walk(r):
+        if isinstance(x, ast.Assign) and U(x.targets[0]) == "%s[%s]['value']" % (st, reg):
+            fnodes = C.norm_fact_nodes(x, stop=r)
+            facts = {(C.CT(U(e)), pol) for e, pol in fnodes}
+            rhs = S(x.value)
+
+            def harmless(e, pol):
+                if C.CT(U(e)) == member or e is r.test or C.CT(U(e)) == C.CT("%s == %s" % (srcname, reg)) \
+                        or C.CT(U(e)) == C.CT("%s == %s" % (reg, srcname)):
+                    return True
+                return (pol is False and isinstance(e, ast.Compare) and isinstance(e.ops[0], ast.Is)
+                        and U(e.comparators[0]) == "None" and S(e.left) in (src_get, src_idx))
+            other = [(U(e), pol) for e, pol in fnodes if not harmless(e, pol)]
+            if other:
+                odd.append(x)
+            elif rhs == src_get + "['value']" and (member, False) not in facts:
+                covered |= {"A"} if (member, True) in facts else {"A", "C"}
+            elif rhs == src_idx + "['value']" and (member, True) in facts:
+                covered |= {"A"}
+            elif rhs == "0" and (member, False) in facts:
+                covered |= {"C"}
+            else:
+                odd.append(x)
+    val_copy = covered == {"A", "C"}
     unk_src = False
     for x in ast.walk(r):
         if isinstance(x, ast.Assign) and U(x) == "%s[%s] = None" % (st, reg):
             nf = C.norm_fact_nodes(x, stop=r)
-            under = any(pol and isinstance(e, ast.Compare) and isinstance(e.ops[0], ast.Is) and S(e.left) == src_state
-                        and U(e.comparators[0]) == "None" for e, pol in nf)
+            has_member = any(pol and C.CT(U(e)) == member for e, pol in nf)
+            under = any(pol and isinstance(e, ast.Compare) and isinstance(e.ops[0], ast.Is) and U(e.comparators[0]) == "None"
+                        and (S(e.left) == src_get or (S(e.left) == src_idx and has_member)) for e, pol in nf)
             # ... and the iteration ends there (the register stays unknown: nothing is added afterwards)
             leaves = not C.cfg_of(f).reachable(x, adds[0][0], within=loop) if adds else False
             unk_src = unk_src or (under and leaves)
     ctx.check(name_set, "R6", "rename records the source register's name", f.where(r),
               "rename does not record the new name", f.qname, "rename name")
-    ctx.check(val_copy, "R6", "rename takes the source register's tracked value", f.where(r),
-              "rename does not start from the source register's tracked value (default 0)", f.qname, "rename value")
+    ctx.judge(val_copy, not odd, "R6", "rename takes the source register's tracked value", f.where(r),
+              "rename does not start from the source register's tracked value (0 for a source without an entry); cases "
+              "covered: %s of A (tracked source), C (source without entry)" % sorted(covered), f.qname, "rename value")
     ctx.check(unk_src, "R6", "rename from an unknown source makes the register unknown", f.where(r),
               "a rename from a register whose change is unknown does not make the target unknown", f.qname,
               "rename unknown source")
